@@ -1,8 +1,203 @@
 /-
-  C06 — property theorems (only `theorem C06_*` statements and non-vacuity examples live here;
-  helper lemmas go to CedarGoProofs/Lemmas/).
+  C06 — Partial evaluation is sound for every completion of the unknowns.
+
+  Model: `CedarGo/Model/Partial.lean` (`partialE`, `partialPolicy`, mirroring internal/eval/partial.go INCLUDING its
+  defects), tied to the implementation by the correspondence op `partial` (residual AST, white-box) and — through
+  `Model/Batch.lean` — by op `batch`.
+
+  The full property (`C06_partial_keep_sound`, `C06_partial_drop_sound` without the domain hypothesis) is FALSE for
+  the code as written; the counterexample theorems below exhibit concrete policies, partial environments and
+  completions (the same inputs are replayed on the Go code by harness/cmd/vh/c06.go, table cases `stale-and`,
+  `tainted-contains`, `isin-eager`).
+
+  PROVED (all about `partialE` / `partialPolicy`, the transcription of partial.go):
+    * `C06_stale_residual_counterexample`, `C06_stale_residual_or_if_counterexample`,
+      `C06_tainted_container_counterexample`, `C06_tainted_record_counterexample`, `C06_isin_eager_counterexample`
+        — the unrestricted property is false: kept-but-different, and dropped-but-satisfied.
+    * `C06_partialE_sound_partial` — expression level, on the decidable domain `domE`: whatever `partial` returns for
+      `e` against a partial environment is correct under EVERY completion σ of the unknowns: a literal is the value of
+      `e` (up to completing unknowns it merely contains), a residual agrees with `e` (same value, or both fail), an
+      error means `e` fails under every completion.
+    * `C06_partial_keep_sound_partial` — policy level, on `partialDomain`: if the policy is kept, the residual policy is
+      satisfied under the completed environment exactly when the original is.
+    * `C06_partial_drop_sound_partial` — policy level, on `partialDomain`: if the policy is dropped, the original is
+      not satisfied under any completion.
+    * `C06_partial_ignore_widens_partial` — ignored request parts (`partialDomainI`): a permit policy that is satisfied for
+      some value of the ignored parts is kept and its residual is satisfied (ignoring only widens).
+    * `C06_domain_excludes_counterexamples` — the counterexamples lie outside the domain (the domain hypothesis is
+      what separates them), and `C06_domain_nonvacuous` — policies that genuinely use unknowns lie inside it.
+  The domain (`domE` / `partialDomain`, Model/Partial.lean; decidable, evaluated by the driver for every generated
+  case so the evidence reports how many cases fall inside it) is the conjunction of
+      NoTaintedWholeUse                — no operator other than `.`/`has` consumes a literal that merely contains an
+                                         unknown; policy literals are marker-free;
+      NoVariableOperandOfShortCircuit  — no `errVariable` operand where `&&`, `||`, `if` keep the returned node;
+      is-in guard                      — an erroring right operand of `is…in` only under a type test known to pass;
+      no ignore markers.
+  NOT PROVED
+    * agreement of *error-ness* at policy level (residual erroring ⇔ original erroring): holds at expression level
+      (`C06_partialE_sound_partial` gives it), not carried through `PartialPolicy` here; the property text only
+      demands satisfaction.
+    * independence of the residual from the ignored parts (the residual is evaluated under the same value of the
+      ignored part in `C06_partial_ignore_widens_partial`); the direct oracle evaluates it under the batch placeholder too.
 -/
-import CedarGo.Model.Fold
+import CedarGo.Model.Partial
+import CedarGoProofs.Lemmas.C06
+import CedarGoProofs.Lemmas.C06Policy
 namespace CedarGo
+
+/-! ## counterexamples: the property fails for the code as written -/
+
+def ceBase : Env :=
+  { entities := [], principal := .entity "User" "a", action := .entity "Action" "a", resource := .entity "Doc" "a",
+    context := .record [] }
+
+def whenPolicy (body : Expr) : Policy := { effect := .permit, conditions := [(true, body)] }
+
+/-- `permit(principal, action, resource) when { context.key && true };` with `context = {key: ?k}` -/
+def ceStaleEnvHat : Env := { ceBase with context := .record [("key", mkVariable "k")] }
+def ceStalePolicy : Policy := whenPolicy (.binop .and (.access (.var .context) "key") (.lit (.bool true)))
+
+/-- Stale residual (`partialAnd` keeps the node returned with `errVariable`): the policy is kept, the original is
+    satisfied under the completion `k := true`, the residual is an error (hence not satisfied). -/
+theorem C06_stale_residual_counterexample :
+    ∃ (envHat env : Env) (p r : Policy), Completes envHat env ∧ partialPolicy envHat p = some r ∧
+      satisfied p env = true ∧ satisfied r env = false ∧ erroring r env = true :=
+  ⟨ceStaleEnvHat, { ceBase with context := .record [("key", .bool true)] }, ceStalePolicy,
+    whenPolicy (.binop .and (.access (.lit (.record [("key", mkVariable "k")])) "key") (.lit (.bool true))),
+    ⟨fun _ => .bool true, fun _ => rfl, rfl⟩, by rfl, by decide +kernel, by decide +kernel, by decide +kernel⟩
+
+/-- the same defect through `||` and `if` -/
+theorem C06_stale_residual_or_if_counterexample :
+    (∃ r, partialPolicy ceStaleEnvHat (whenPolicy (.binop .or (.access (.var .context) "key") (.lit (.bool false)))) = some r ∧
+        satisfied (whenPolicy (.binop .or (.access (.var .context) "key") (.lit (.bool false))))
+          { ceBase with context := .record [("key", .bool true)] } = true ∧
+        satisfied r { ceBase with context := .record [("key", .bool true)] } = false) ∧
+    (∃ r, partialPolicy ceStaleEnvHat (whenPolicy (.ite (.access (.var .context) "key") (.lit (.bool true)) (.lit (.bool false)))) = some r ∧
+        satisfied (whenPolicy (.ite (.access (.var .context) "key") (.lit (.bool true)) (.lit (.bool false))))
+          { ceBase with context := .record [("key", .bool true)] } = true ∧
+        satisfied r { ceBase with context := .record [("key", .bool true)] } = false) :=
+  ⟨⟨_, rfl, by decide +kernel, by decide +kernel⟩, ⟨_, rfl, by decide +kernel, by decide +kernel⟩⟩
+
+/-- `permit(principal, action, resource) when { context.s.contains(1) };` with `context = {s: [?x]}` -/
+def ceTaintEnvHat : Env := { ceBase with context := .record [("s", .set [mkVariable "x"])] }
+def ceTaintPolicy : Policy := whenPolicy (.binop .contains (.access (.var .context) "s") (.lit (.long 1)))
+
+/-- Tainted container (a set that merely contains an unknown is treated as a known value): the policy is DROPPED
+    although it is satisfied under the completion `x := 1`. -/
+theorem C06_tainted_container_counterexample :
+    ∃ (envHat env : Env) (p : Policy), Completes envHat env ∧ partialPolicy envHat p = none ∧ satisfied p env = true :=
+  ⟨ceTaintEnvHat, { ceBase with context := .record [("s", .set [.long 1])] }, ceTaintPolicy,
+    ⟨fun _ => .long 1, fun _ => rfl, rfl⟩, Option.isNone_iff_eq_none.mp (by decide +kernel), by decide +kernel⟩
+
+/-- the same defect for a record compared as a whole: `context.r == {a: 1}` with `context = {r: {a: ?x}}` -/
+theorem C06_tainted_record_counterexample :
+    ∃ (envHat env : Env) (p : Policy), Completes envHat env ∧ partialPolicy envHat p = none ∧ satisfied p env = true :=
+  ⟨{ ceBase with context := .record [("r", .record [("a", mkVariable "x")])] },
+    { ceBase with context := .record [("r", .record [("a", .long 1)])] },
+    whenPolicy (.binop .eq (.access (.var .context) "r") (.lit (.record [("a", .long 1)]))),
+    ⟨fun _ => .long 1, fun _ => rfl, rfl⟩, Option.isNone_iff_eq_none.mp (by decide +kernel), by decide +kernel⟩
+
+/-- `permit(principal, action, resource) when { !(principal is Doc in context.missing) };` with `principal = ?p` -/
+def ceIsInEnvHat : Env := { ceBase with principal := mkVariable "p" }
+def ceIsInPolicy : Policy :=
+  whenPolicy (.unop .not (.isIn (.var .principal) "Doc" (.access (.var .context) "missing")))
+
+/-- `is … in` handled as a strict operator: the error of the right operand escapes into the residual although the
+    evaluator never reaches it when the type test fails (`p := User::"a"`). -/
+theorem C06_isin_eager_counterexample :
+    ∃ (envHat env : Env) (p r : Policy), Completes envHat env ∧ partialPolicy envHat p = some r ∧
+      satisfied p env = true ∧ satisfied r env = false :=
+  ⟨ceIsInEnvHat, ceBase, ceIsInPolicy, whenPolicy extError,
+    ⟨fun _ => .entity "User" "a", fun _ => rfl, rfl⟩, by rfl, by decide +kernel, by decide +kernel⟩
+
+/-! ## soundness on the domain -/
+
+/-- Expression level.  `Sound σ env e r` (Lemmas/C06.lean) unfolds to:
+      r = (lit v, nil)      ⇒  v is not an unknown ∧ (eval e env = v ∨ eval e env = v with its unknowns completed by σ)
+      r = (e', nil)         ⇒  eval e' env and eval e env are the same value, or both are errors
+      r = (_, errVariable)  ⇒  (nothing: every consumer in the domain keeps the original `e`)
+      r = (nil, err)        ⇒  eval e env is an error
+    for the completed environment `env = completeEnv σ envHat`, for EVERY σ. -/
+theorem C06_partialE_sound_partial (σ : String → Value) (envHat : Env) (e : Expr) (h : domE envHat e = true) :
+    Sound σ (completeEnv σ envHat) e (partialE envHat e) :=
+  partialE_sound (completesVia_complete σ envHat) e h
+
+/-- Full statement (false for the code as written, see the counterexamples):
+      `Completes envHat env → partialPolicy envHat p = some r → satisfied r env = satisfied p env`.
+    Proved with the additional hypothesis `partialDomain envHat p`. -/
+theorem C06_partial_keep_sound_partial (envHat env : Env) (p r : Policy)
+    (hc : Completes envHat env) (hd : partialDomain envHat p = true) (hk : partialPolicy envHat p = some r) :
+    satisfied r env = satisfied p env := by
+  obtain ⟨σ, _, rfl⟩ := hc
+  have := partialPolicy_sound σ envHat p hd
+  rw [hk] at this
+  exact this
+
+/-- Full statement (false for the code as written): `Completes envHat env → partialPolicy envHat p = none →
+    satisfied p env = false`.  Proved with the additional hypothesis `partialDomain envHat p`. -/
+theorem C06_partial_drop_sound_partial (envHat env : Env) (p : Policy)
+    (hc : Completes envHat env) (hd : partialDomain envHat p = true) (hk : partialPolicy envHat p = none) :
+    satisfied p env = false := by
+  obtain ⟨σ, _, rfl⟩ := hc
+  have := partialPolicy_sound σ envHat p hd
+  rw [hk] at this
+  exact this
+
+/-- the counterexamples are exactly outside the domain -/
+theorem C06_domain_excludes_counterexamples :
+    partialDomain ceStaleEnvHat ceStalePolicy = false ∧ partialDomain ceTaintEnvHat ceTaintPolicy = false ∧
+      partialDomain ceIsInEnvHat ceIsInPolicy = false := by
+  refine ⟨by decide +kernel, by decide +kernel, by decide +kernel⟩
+
+/-- non-vacuity: policies that use unknown positions (an unknown principal in scope and condition, an unknown nested in
+    the context compared, tested with `has`, used in arithmetic and under `&&` / `||` / `if`) lie inside the domain,
+    are kept, and have a non-trivial residual. -/
+def nvEnvHat : Env :=
+  { ceBase with principal := mkVariable "p", context := .record [("n", mkVariable "x"), ("r", .record [("k", mkVariable "x")])] }
+def nvPolicy : Policy :=
+  { effect := .forbid, principal := .is "User",
+    conditions := [
+      (true, .binop .and (.binop .lt (.binop .add (.access (.var .context) "n") (.lit (.long 1))) (.lit (.long 3)))
+                         (.binop .or (.binop .eq (.var .principal) (.lit (.entity "User" "a"))) (.has (.access (.var .context) "r") "k"))),
+      (false, .ite (.binop .eq (.access (.access (.var .context) "r") "k") (.lit (.long 2))) (.lit (.bool true)) (.lit (.bool false)))] }
+
+theorem C06_domain_nonvacuous :
+    partialDomain nvEnvHat nvPolicy = true ∧ (partialPolicy nvEnvHat nvPolicy).isSome = true := by
+  refine ⟨by decide +kernel, by decide +kernel⟩
+
+example : Completes nvEnvHat (completeEnv (fun x => if x == "p" then .entity "User" "a" else .long 1) nvEnvHat) :=
+  ⟨_, by intro x; split <;> rfl, rfl⟩
+
+/-! ## ignored parts -/
+
+/-- `env` completes a partial environment that may have ignored request parts: unknowns are completed by some `σ`,
+    every ignored part gets some value (`ι`) -/
+def CompletesI (envHat env : Env) : Prop :=
+  ∃ (σ : String → Value) (ι : Var → Value), env = completeEnvI σ ι envHat
+
+/-- Ignoring only widens what permits allow.  Full statement: for a permit policy, if the original is satisfied for
+    at least one value of the ignored parts then the policy is kept and its residual is satisfied (for ANY value of the
+    ignored parts, in particular the placeholder `__cedar::unknown` that batch uses).
+    Proved here, on `partialDomainI` (conditions in `domE`; ignore markers allowed): kept, and the residual is satisfied
+    under the SAME values of the ignored parts.  Not proved: that the residual's value does not depend on the ignored
+    parts at all (the oracle evaluates the residual under both the witness value and the batch placeholder). -/
+theorem C06_partial_ignore_widens_partial (envHat env : Env) (p : Policy)
+    (hc : CompletesI envHat env) (hperm : p.effect = .permit) (hd : partialDomainI envHat p = true)
+    (hsat : satisfied p env = true) :
+    ∃ r, partialPolicy envHat p = some r ∧ satisfied r env = true := by
+  obtain ⟨σ, ι, rfl⟩ := hc
+  exact partialPolicy_widen σ ι envHat p hperm hd hsat
+
+/-- non-vacuity: principal ignored, an unknown in the context; the scope clause and the condition on the principal
+    disappear, the condition on the unknown stays -/
+def igEnvHat : Env := { ceBase with principal := mkIgnore, context := .record [("n", mkVariable "x")] }
+def igPolicy : Policy :=
+  { effect := .permit, principal := .eq ("User", "a"),
+    conditions := [(true, .binop .eq (.access (.var .principal) "dept") (.lit (.str "x"))),
+                   (true, .binop .lt (.access (.var .context) "n") (.lit (.long 3)))] }
+
+example : partialDomainI igEnvHat igPolicy = true := by decide +kernel
+example : (partialPolicy igEnvHat igPolicy).map (fun r => (r.principal.isAll, r.conditions.length)) = some (true, 1) := by
+  decide +kernel
 
 end CedarGo
